@@ -159,6 +159,12 @@ pub fn run(seed: u64, n: usize, out: &mut Out) {
             dot_urls = vec![format!("https://ad{}.example.com/x.js", w), format!("https://ad{}.example.com/{}/x.js", w, w), format!("https://{}.example.com/x.js", w),
                             format!("https://a.{}.example.com/x.js", w), format!("https://cdn.test/{}/x.js", w), format!("https://my{}.co/{}.js", w, w)];
         }
+        if r.pct(8) {
+            // regular-expression rules that do not compile, in the bucket of ones that do
+            lines.push("/advert[0-9]+/".to_string());
+            lines.push(r.pick(&["/banner[0-9]+(?!x)/", "/zz[/", "/a{2,1}b/"]).to_string());
+            dot_urls.push("https://cdn.test/advert12.png".to_string());
+        }
         if r.pct(30) {
             // order must not matter for the verdict: shuffle
             for i in (1..lines.len()).rev() {
@@ -174,7 +180,21 @@ pub fn run(seed: u64, n: usize, out: &mut Out) {
             2 => vec!["t2".into()],
             _ => vec!["t1".into(), "t2".into()],
         };
-        let mut engine = Engine::from_rules_parametrised(&lines, Default::default(), true, optimize);
+        // (most embedders build without debug information: the rules then carry no text of their own)
+        let debug = !r.pct(30);
+        let mut engine = if !debug && r.pct(50) {
+            let mut e = Engine::from_rules(&lines, Default::default());
+            if !optimize {
+                // `from_rules` optimises; the unoptimised variant goes through the filter set
+                let mut fs = adblock::lists::FilterSet::new(false);
+                fs.add_filters(&lines, Default::default());
+                e = Engine::from_filter_set(fs, false);
+            }
+            e
+        } else {
+            Engine::from_rules_parametrised(&lines, Default::default(), debug, optimize)
+        };
+        out.bump(if debug { "engines_with_debug_text" } else { "engines_without_debug_text" });
         engine.use_resources(resources.clone());
         engine.use_tags(&tags.iter().map(|s| s.as_str()).collect::<Vec<_>>());
         let mut rules = parse_all(&lines);
